@@ -186,7 +186,7 @@ def work(arg):
                                                                 f'{(base.pressure_mode, base.pressure_unit, base.loading_basis, base.loading_unit)}',
                                                            {'isotherm': iso_name, 'rep': rep, 'result': key}, b0.value.get(key), o.value.get(key)))
     # loading scale factors
-    for fac in (0.5, 3.0):
+    for fac in (0.5, 3.0, 1e-5, 1e4):
         sc = clone(base, fac)
         for name in names:
             b0 = base_res[name]
@@ -201,6 +201,8 @@ def work(arg):
             dev, key = cmp_result(b0.value, o.value, tol, kinds, fac, fac)
             if dev > max(tol, 1e-6):
                 sig = {'check': 'loading-scaling', 'entry': name.split('(')[0]}
+                if not 0.1 <= fac <= 10:
+                    sig['factor'] = 'several orders of magnitude'
                 k = core.sig_key(sig)
                 if k not in seen:
                     seen.add(k)
@@ -253,6 +255,31 @@ def work(arg):
                     out['viol'].append(core.make_violation(sig, f'{name} on {iso_name} converted with convert({conv}): an isotherm whose columns are called p_meas/uptake gives '
                                                                 f'{"a result deviating by %.3g" % dev if o.ok else o.brief()[:150]} from the same content under the default column names',
                                                            {'isotherm': iso_name, 'conversion': conv}))
+    # a working copy made from the isotherm's own table is converted: the ORIGINAL, never converted, still gives its results
+    for how in ('from_isotherm(iso, isotherm_data=iso.data())', 'PointIsotherm(isotherm_data=iso.data_raw, **iso.to_dict())'):
+        for conv in (dict(loading_basis='molar', loading_unit='mol'), dict(pressure_mode='absolute', pressure_unit='kPa'), dict(loading_basis='mass', loading_unit='mg')):
+            orig = clone(base)
+            if how.startswith('from_isotherm'):
+                cp = core.call(pygaps.PointIsotherm.from_isotherm, orig, isotherm_data=orig.data(), pressure_key=orig.pressure_key, loading_key=orig.loading_key)
+            else:
+                cp = core.call(pygaps.PointIsotherm, isotherm_data=orig.data_raw, pressure_key=orig.pressure_key, loading_key=orig.loading_key, **orig.to_dict())
+            if not cp.ok or not core.call(cp.value.convert, **conv).ok:
+                continue
+            for name in names:
+                b0 = base_res[name]
+                if not b0.ok or name.startswith('psd_dft'):
+                    continue
+                o = core.call(E[name][0], orig, timeout=600)
+                out['ev'] += 1
+                out['nt'] += 1
+                dev = cmp_result(b0.value, o.value, 1e-9, E[name][2])[0] if o.ok else float('inf')
+                if dev > 1e-9:
+                    sig = {'check': 'working-copy-conversion-changes-original', 'entry': name.split('(')[0]}
+                    k = core.sig_key(sig)
+                    if k not in seen:
+                        seen.add(k)
+                        out['viol'].append(core.make_violation(sig, f'{name} on {iso_name}: after a working copy ({how}) was converted with convert({conv}) the original isotherm gives '
+                                                                    f'{"a result deviating by %.3g" % dev if o.ok else o.brief()[:150]}', {'isotherm': iso_name, 'conversion': conv, 'copy': how}))
     # export -> import before the analysis
     import pygaps.parsing as pp
     rt = core.call(lambda: pp.isotherm_from_json(pp.isotherm_to_json(clone(base))))
